@@ -465,7 +465,7 @@ example : ¬ (Store.demo.define 0 "bad" (.vec 9)).WF := fun h => by
 /-- The link between the Scheme forms and the store operations the theorems above are about:
 a variable reference is `Store.lookup` from the current frame; a `lambda` captures the current
 frame id; `(set! x e)` evaluates `e` and then is exactly `Store.set` from the current frame
-(`Void` on success, `UnboundedSymbol` and an unchanged store otherwise); an internal definition
+(`Void` on success, `UnboundedSymbol` at the form's location and an unchanged store otherwise); an internal definition
 evaluates its expression and then is `Store.define` in the call's own frame. -/
 theorem scoping_forms (fuel : Nat) (σ : Store) (ρ : Nat) :
     (∀ s l, evalExpr (fuel + 1) σ ρ (.sym s l) =
@@ -479,7 +479,7 @@ theorem scoping_forms (fuel : Nat) (σ : Store) (ρ : Nat) :
       | (.ok v, σ₁) =>
         match σ₁.set ρ x v with
         | (true, σ₂) => (.ok .void, σ₂)
-        | (false, σ₂) => (.error (.unbound, none), σ₂)) ∧
+        | (false, σ₂) => (.error (.unbound, l), σ₂)) ∧
     (∀ name e l ds, evalDefs (fuel + 1) σ ρ (.mk name e l :: ds) =
       match evalExpr fuel σ ρ e with
       | (.error er, σ₁) => (.error er, σ₁)
